@@ -1607,6 +1607,8 @@ class Executor:
         d = DictV()
         for k, v in zip(n.keys, n.values):
             kk = self.ev(k)
+            if isinstance(kk, Obj):
+                kk = 'obj:%d' % kk.uid        # keyed by object identity (modelled objects are hashable by identity)
             if not isinstance(kk, (str, int)):
                 raise Unsupported('dict literal with symbolic key')
             d.entries[kk] = (True, self.ev(v))
@@ -2424,12 +2426,28 @@ def _next(ex, g):
     raise Unsupported('next()')
 
 
+def _dict_ctor(ex, d=None, **kw):
+    out = DictV()
+    if d is not None:
+        if not isinstance(d, DictV):
+            raise Unsupported('dict(%r)' % (d,))
+        out.entries.update(d.entries)
+        out.closed = d.closed
+    for k, v in kw.items():
+        if k == '**':
+            out.entries.update(v.entries)
+        else:
+            out.entries[k] = (True, v)
+    return out
+
+
 BUILTINS = {
     'len': FnV(_len, 'len'), 'min': FnV(_minmax('min'), 'min'), 'max': FnV(_minmax('max'), 'max'),
     'abs': FnV(_abs, 'abs'), 'int': FnV(_int, 'int'), 'float': FnV(_float, 'float'), 'bool': FnV(_bool, 'bool'), 'ord': FnV(_ord, 'ord'),
     'isinstance': FnV(_isinstance, 'isinstance'), 'tuple': FnV(_tuple, 'tuple'), 'list': FnV(_list, 'list'),
     'bytes': FnV(_bytes, 'bytes'), 'hasattr': FnV(_hasattr, 'hasattr'), 'enumerate': FnV(_enumerate, 'enumerate'),
     'range': FnV(_range, 'range'), 'True': True, 'False': False, 'None': None,
+    'dict': FnV(_dict_ctor, 'dict'),
     'str': FnV(lambda ex, *a: OpaqueStr(), 'str'), 'repr': FnV(lambda ex, *a: OpaqueStr(), 'repr'),
 }
 
